@@ -11,7 +11,7 @@ PROP_FILES = ["Config/Properties_C18.v"]
 MANIFEST = dict(
     technique="Coq proof (case analysis over policy x cache x hash x server with arbitrary contents, SHA-256 an uninterpreted section variable; induction over fetch histories sharing one cache) on a Gallina port of fetch_remote_config_with_client, tied by an exhaustive run of the policy table through the re-exported function with a scripted HttpClient, sampled histories, and real kills at every hook point of the cache write",
     text="Theorems C18_integrity, C18_never_caches_mismatch, C18_offline_never_fetches, C18_refresh_never_reads_cache, C18_normal_respects_ttl, C18_sequence_inv, C18_failed_fetch_leaves_cache, C18_crash_with_hash_safe, C18_crash_without_hash hold for every hash function, every content, every clock value and every history (unbounded). The tie to the Rust code: the full product policy(3) x cache state(21: absent, 5 ages x 4 bodies) x extends_sha256(11, incl. empty / prefix / upper-case / over-long / last-char-differs pins) x server(4) under the simulated and the wall clock, sampled histories of 2-4 fetches, and a child process killed at each named point of the cache write followed by a second run.",
-    note="Trusted: Coq kernel, extraction, harness sgv-config (scripted client, clock virtualisation: a cache file written under the simulated clock is re-stamped with the simulated time), sha2, the file system's rename atomicity. reqwest/TLS are not exercised.",
+    note="Trusted: Coq kernel, extraction, harness sgv-config (scripted client, clock virtualisation: a cache file written under the simulated clock is re-stamped with the simulated time), sha2, the file system's rename atomicity. ReqwestClient::get is exercised against a local plain-HTTP stub (status classes); TLS, redirects that do carry a Location and real time-outs are not.",
     ref="5 (C18)")
 
 GOOD = "[content]\nmax_lines = 100\n"
@@ -406,6 +406,146 @@ def run_cli_pins(ctx, env, st):
                 st["nontrivial"].add("cli-pin:" + label)
 
 
+# ------------------------------------------------------------------ the production client against a real local HTTP server
+
+STATUSES = [200, 204, 300, 301, 304, 400, 404, 500, 503]      # 301 is sent without a Location header
+
+
+class Stub:
+    """HTTP/1.1 stub on 127.0.0.1:<ephemeral port>: answers every GET with self.status; 200 carries self.body,
+    every other status an empty body. Counts the requests it sees."""
+
+    def __init__(self):
+        import http.server
+        import threading
+        stub = self
+        self.status, self.body, self.requests = 200, GOOD.encode(), 0
+
+        class Handler(http.server.BaseHTTPRequestHandler):
+            protocol_version = "HTTP/1.1"
+
+            def do_GET(self):
+                stub.requests += 1
+                body = stub.body if stub.status == 200 else b""
+                self.send_response(stub.status)
+                if stub.status == 200:
+                    self.send_header("Content-Type", "text/plain; charset=utf-8")
+                self.send_header("Content-Length", str(len(body)))
+                self.end_headers()
+                if body:
+                    self.wfile.write(body)
+
+            def log_message(self, *a):
+                pass
+        self.srv = http.server.ThreadingHTTPServer(("127.0.0.1", 0), Handler)
+        self.port = self.srv.server_address[1]
+        self.thread = threading.Thread(target=self.srv.serve_forever, daemon=True)
+        self.thread.start()
+
+    def close(self):
+        self.srv.shutdown()
+        self.srv.server_close()
+
+
+def run_real_server(ctx, env, st):
+    """ReqwestClient (the production HttpClient) through the real binary. A scenario is an initial cache entry and a
+    list of runs (policy, pin, status the server answers); compared with the model's history (2xx = body, anything
+    else = client error) and with the statement: a non-2xx answer is a failed fetch (exit 2, diagnostic naming the
+    status), leaves the cache as it was, and a later healthy run applies the real configuration."""
+    try:
+        stub = Stub()
+    except OSError as e:
+        raise CheckBroken("cannot open a local HTTP server: %s" % e)
+    ht = htable()
+    limit = {GOOD: 100, OLD: 90, EMPTY: 600}
+    g = sha256_hex(GOOD)
+    scen = []
+    for code in STATUSES:
+        scen.append((None, [("normal", None, code), ("normal", None, 200)]))
+    scen += [(("fresh", OLD), [("offline", None, 500)]),
+             (("fresh", OLD), [("refresh", None, 304), ("normal", None, 200)]),
+             (("stale", OLD), [("normal", None, 304), ("normal", None, 200)]),
+             (("stale", OLD), [("normal", None, 200), ("offline", None, 503)]),
+             (None, [("normal", g, 304), ("normal", g, 200), ("offline", g, 404)]),
+             (None, [("normal", "", 200), ("normal", g[:4], 200)]),
+             (None, [("normal", g, 204), ("refresh", None, 300), ("refresh", None, 200)]),
+             (None, [("offline", None, 200)])]
+    try:
+        for (init, runs) in scen:
+            with Sandbox("sgv-c18-http-") as sb:
+                url = "http://127.0.0.1:%d/base.toml" % stub.port
+                cpath = os.path.join(sb.proj, ".sloc-guard", "remote-configs", sha256_hex(url) + ".toml")
+                c0 = None
+                if init:
+                    sb.write(cpath, init[1], base="/")
+                    if init[0] == "stale":
+                        t = os.stat(cpath).st_mtime - 7200
+                        os.utime(cpath, (t, t))
+                    c0 = (N0 - (10 if init[0] == "fresh" else 7200), init[1])
+                steps, answers = [], []
+                for k, (policy, pin, code) in enumerate(runs):
+                    sb.write(".sloc-guard.toml", 'extends = "%s"\n' % url + ('extends_sha256 = "%s"\n' % pin if pin is not None else ""))
+                    stub.status = code
+                    before_req = stub.requests
+                    before = open(cpath).read() if os.path.exists(cpath) else None
+                    rc, out, err = sb.run(env["cli"], ["--color", "never", "--extends-policy", policy, "config", "show", "--format", "json"],
+                                          env={"NO_PROXY": "127.0.0.1", "no_proxy": "127.0.0.1"})
+                    st["spawns"] += 1
+                    st["evals"] += 1
+                    tag = "http:%s:%d" % (policy, code)
+                    st["hist"][tag] = st["hist"].get(tag, 0) + 1
+                    after = open(cpath).read() if os.path.exists(cpath) else None
+                    nreq = stub.requests - before_req
+                    ml = None
+                    if rc == 0:
+                        try:
+                            ml = json.loads(out)["content"]["max_lines"]
+                        except (ValueError, KeyError):
+                            ml = "?"
+                    answers.append((rc, ml, nreq, after, err))
+                    srv = ("B", GOOD) if code == 200 else (("B", EMPTY) if 200 <= code < 300 else ("F", 1))
+                    steps.append((policy, N0 + k, pin, srv))
+                    desc = {"level": "http", "initial_cache": init, "runs": runs, "step": k, "impl": {"rc": rc, "max_lines": ml, "requests": nreq, "cache_after": after, "stderr": err[-300:]}}
+                    # the statement itself
+                    if not (200 <= code < 300) and nreq > 0:
+                        if rc != 2 or ("HTTP %d" % code) not in err:
+                            st["fails"].append(dict(desc, what="the server answered HTTP %d (not 2xx) and the run did not fail with that diagnostic (exit %d)" % (code, rc)))
+                        if after != before:
+                            st["fails"].append(dict(desc, what="a failed fetch (HTTP %d) changed the cache: %r -> %r" % (code, before, after)))
+                    if policy == "offline" and nreq != 0:
+                        st["fails"].append(dict(desc, what="offline policy contacted the server"))
+                    if pin is not None and rc == 0 and after is not None and sha256_hex(after) != pin and after != before:
+                        st["fails"].append(dict(desc, what="content not matching extends_sha256 was cached"))
+                    if code == 200 and nreq > 0 and pin in (None, g) and (rc != 0 or ml != 100 or after != GOOD):
+                        st["fails"].append(dict(desc, what="a healthy fetch did not apply / cache the real configuration"))
+                # the model's history
+                def stepf(s):
+                    return "%s;%d;%s;%s" % (s[0], s[1], enc_opt(s[2]), server_field(s[3]))
+                m = "seq\t%s\t%s\t%s" % (cache_field(c0), ht, "\t".join(stepf(s) for s in steps))
+                mo, _, _ = run_lines(env["model"], [m])
+                outs_s, final = [x.strip() for x in mo[0].split("|")]
+                ok = True
+                for (rc, ml, nreq, after, err), o in zip(answers, [x.strip() for x in outs_s.split(";")]):
+                    oc = parse_outcome(o.rsplit(" ", 1)[0])
+                    n_model = int(o.rsplit(" ", 1)[1])
+                    want_rc = 0 if oc[0] == "CONTENT" else 2
+                    if rc != want_rc or nreq != n_model or (oc[0] == "CONTENT" and ml != limit.get(oc[1])):
+                        ok = False
+                fin = parse_cache(final)
+                if (fin[1] if fin else None) != answers[-1][3]:
+                    ok = False
+                if ok:
+                    st["agree"] += len(runs)
+                else:
+                    st["mism"].append({"level": "http", "initial_cache": init, "runs": runs, "model_line": m, "model": mo[0],
+                                       "impl": [(a[0], a[1], a[2], a[3]) for a in answers]})
+                st["nontrivial"].add("http:" + repr((init, runs)))
+    finally:
+        stub.close()
+    ctx.sample({"level": "http", "statuses_answered": STATUSES, "scenarios": len(scen), "example": {"initial_cache": scen[4][0], "runs": scen[4][1]}})
+    ctx.cov["http_statuses_exercised"] = STATUSES
+
+
 # ------------------------------------------------------------------ vm_compute cross-check
 
 def xcheck(ctx, env, k):
@@ -463,6 +603,7 @@ def run(ctx):
     run_sequences(ctx, env, st, 1500 if ctx.tier == "quick" else 20000)
     run_crashes(ctx, env, st)
     run_cli_pins(ctx, env, st)
+    run_real_server(ctx, env, st)
     ctx.cov["extends_sha256_values_exercised"] = [{"label": l, "value": v} for l, v in pins()]
     xcheck(ctx, env, 40 if ctx.tier == "quick" else 300)
     ctx.cov["evaluations"] = st["evals"]
@@ -477,12 +618,14 @@ def run(ctx):
                        "the correct digest in upper case, the digest plus one character, 64 characters differing in the last one - the model compares the pin by equality, so all but the "
                        "exact digest are mismatches) x server(correct body, altered body, connection error, time-out) = 2772 rows under the "
                        "simulated clock (SGV_NOW) plus the rows away from the TTL boundary under the wall clock (cache file aged with set_modified); seeded histories of 2-4 fetches "
-                       "sharing one cache file with an advancing clock and the same pin values; the pin through the CLI (leaf.toml with extends_sha256, cached remote, --extends-policy offline, 10 pin values); every named hook point of the cache write killed in a child process (SGV_CRASH_AT) for 14 scenarios, each "
+                       "sharing one cache file with an advancing clock and the same pin values; the pin through the CLI (leaf.toml with extends_sha256, cached remote, --extends-policy offline, 10 pin values); the production client (reqwest) through the real binary against a local HTTP "
+                       "server on 127.0.0.1 answering each of 200, 204, 300, 301 (no Location), 304, 400, 404, 500, 503, followed by a healthy run, plus offline / refresh / pinned scenarios "
+                       "(requests counted by the server); every named hook point of the cache write killed in a child process (SGV_CRASH_AT) for 14 scenarios, each "
                        "followed by three second runs with the server unreachable. Observables: returned content or error kind, requests seen by the scripted client, cache bytes "
                        "and mtime afterwards. Every row: impl vs extracted model, impl vs the python reading of the C18 statement. "
                        "non-trivial = distinct row with a cache entry or a pinned hash, every history, every (scenario, kill point) that was reached")
     ctx.cov["trusted_base"] = TRUSTED_COMMON + [
-        "scripted HttpClient of the harness stands for reqwest (connection error and time-out are both Err values of the trait)",
+        "scripted HttpClient of the harness stands for reqwest in the table (connection error and time-out are both Err values of the trait); the status handling of ReqwestClient::get is exercised by the real-server leg, TLS and real time-outs are not",
         "clock virtualisation: SGV_NOW for the TTL test; a cache file written during a simulated-clock run is re-stamped with the simulated time by the harness",
         "sha2 (SHA-256) is an uninterpreted function H in the theorems; the run checks it against hashlib",
         "rename(2) atomicity and the ordering of file-system effects as observed after SIGABRT (no power-loss model)"]
